@@ -117,36 +117,44 @@ func newLexer(env *interp.ExecEnv, name string, r io.RuneScanner) *lexer {
 		col:     1,
 	}
 	l.mark(0)
+	verifHook(l, hkSpawn)
 	go l.run()
 	return l
 }
 
 func (l *lexer) Lex(lval *yySymType) int {
+	verifHook(l, hkLexBefore)
 	switch tok := (<-l.token).(type) {
 	case token:
+		verifHook(l, hkLexAfter)
 		l.last.Store(tok.Pos())
 		lval.token = tok
 		return tok.typ
 	case word:
+		verifHook(l, hkLexAfter)
 		l.last.Store(tok.Pos())
 		lval.word = tok.val
 		return tok.typ
 	}
+	verifHook(l, hkLexAfter)
 	return 0
 }
 
 func (l *lexer) run() {
 	defer func() {
+		verifHook(l, hkRunExitBegin)
 		close(l.token)
 		if l.done != nil {
 			close(l.done)
 		}
+		verifHook(l, hkRunExitEnd)
 
 		if e := recover(); e != nil && e != bailout {
 			// re-panic
 			panic(e)
 		}
 	}()
+	verifHook(l, hkRunStart)
 
 	for action := l.lexPipeline; action != nil; {
 		action = action()
@@ -1534,9 +1542,12 @@ func (l *lexer) scanCmdSubst(r rune) bool {
 		}
 		ll.mark(off)
 		ll.last.Store(ll.pos)
+		verifHook(ll, hkSpawn)
 		go ll.run()
 		yyParse(ll)
+		verifHook(ll, hkJoinBefore)
 		<-ll.done
+		verifHook(ll, hkJoinAfter)
 		if ll.err != nil {
 			l.mu.Lock()
 			l.err = ll.err
@@ -1689,9 +1700,12 @@ func (l *lexer) emit(typ int) {
 	}
 	l.word = nil
 	l.n++
+	verifHook(l, hkEmitBefore)
 	select {
 	case l.token <- tok:
+		verifHook(l, hkEmitAfter)
 	case <-l.cancel:
+		verifHook(l, hkEmitCancel)
 		// bailout
 		panic(bailout)
 	}
@@ -1758,6 +1772,7 @@ func (l *lexer) Error(e string) {
 }
 
 func (l *lexer) error(pos ast.Pos, msg string) {
+	verifHook(l, hkError)
 	l.mu.Lock()
 	defer l.mu.Unlock()
 
@@ -1777,6 +1792,7 @@ func (l *lexer) error(pos ast.Pos, msg string) {
 	default:
 		close(l.cancel)
 	}
+	verifHook(l, hkCancelClosed)
 }
 
 type action func() action
@@ -1823,6 +1839,7 @@ func (h *heredoc) push(r *ast.Redir) {
 	h.mu.Lock()
 	h.stack = append(h.stack, r)
 	h.mu.Unlock()
+	verifHookH(h, hkPush)
 	// incoming
 	select {
 	case h.c <- struct{}{}:
@@ -1842,7 +1859,9 @@ func (h *heredoc) pop() *ast.Redir {
 		}
 		h.mu.Unlock()
 		// wait
+		verifHookH(h, hkPopWaitBefore)
 		<-h.c
+		verifHookH(h, hkPopWaitAfter)
 	}
 	return nil
 }
